@@ -76,6 +76,11 @@ def _gen_dir(rng, files, sp, rel, name, cfg, depth, style):
     n_children = rng.choice([0, 1, 2, 2, 3])
     for child in rng.sample(SUB_NAMES, min(n_children, len(SUB_NAMES))):
         _gen_entry(rng, files, sp, d, child, cfg, depth + 1)
+    if cfg.get("symlinks") and rng.random() < 0.5:
+        # a sibling sub-package also reachable under a second name (compat -> impl): both names are importable
+        subdirs = sorted({rel[len(d) :].split("/", 1)[0] for rel in files if rel.startswith(d) and "/" in rel[len(d) :] and f"{d}{rel[len(d):].split('/', 1)[0]}/__init__.py" in files})
+        if subdirs:
+            files[f"{d}compat"] = {"symlink": rng.choice(subdirs)}
     n_noise = rng.choice([1, 1, 2, 3]) if rng.random() < cfg["p_noise"] else 0
     for noise in rng.sample(["pycache", "txt", "dotted", "bak", "nonident", "dotdir", "dotdir2"], n_noise):
         if noise in ("dotdir", "dotdir2"):
@@ -158,6 +163,7 @@ def generate(rng, opts):
         cfg["_memo"] = {}
     cfg["top_conflict"] = rng.random() < 0.3
     cfg["stubs_pkg"] = rng.random() < 0.15
+    cfg["symlinks"] = rng.random() < 0.2
     n_sp = rng.choice([1, 2, 2, 3])
     dirs = []
     tops = rng.sample(TOP_NAMES, rng.choice([1, 1, 2]))
@@ -431,6 +437,19 @@ def conflict_tags(dirs, dotted):
     """Tags naming the same-name conflicts that involve `dotted` or one of its ancestors (computed from the plan)."""
     tags = set()
     parts = dotted.split(".")
+    # a symlinked directory shows the files of its target under the link's name
+    expanded = []
+    for files in dirs:
+        view = dict(files)
+        for rel, content in files.items():
+            if isinstance(content, dict) and "symlink" in content:
+                base = rel.rsplit("/", 1)[0] + "/" if "/" in rel else ""
+                target = base + content["symlink"]
+                for r2, c2 in files.items():
+                    if r2.startswith(target + "/"):
+                        view[rel + r2[len(target) :]] = c2
+        expanded.append(view)
+    dirs = expanded
     for i in range(1, len(parts) + 1):
         key = "/".join(parts[:i])
         occ = []  # (search path index, kind)
